@@ -119,6 +119,24 @@ MUTANTS: Dict[str, List[M]] = {
         ("required dropped for positionals", "_core.py", "        if action.required:\n            parser.required_args.add(action.dest)  # type: ignore[union-attr]\n            action._required = True  # type: ignore[attr-defined]\n            action.required = False", "        if action.required:\n            if action.option_strings:\n                parser.required_args.add(action.dest)  # type: ignore[union-attr]\n            action._required = True  # type: ignore[attr-defined]\n            action.required = False", "C06.d"),
         ("parse_known_args opened to any caller", "_core.py", 'if caller not in {"jsonargparse", "argcomplete"}:', 'if caller not in {"jsonargparse", "argcomplete", None}:', "C06.c"),
     ],
+    "C07": [
+        ('yes/no action of a moved parser prefixed with the raw key again (F55)', '_actions.py', '        self.dest = prefix.replace("-", "_") + "." + self.dest\n        self.option_strings[0]', '        self.dest = prefix + "." + self.dest\n        self.option_strings[0]', 'C07.c'),
+        ('general arm dest from raw key', '_actions.py', '                action.dest = dest + "." + action.dest', '                action.dest = prefix + "." + action.dest', 'C07.c'),
+        ('moved option strings prefixed with the dest form', '_actions.py', 'return re.sub("^--", "--" + prefix + ".", key)', 'return re.sub("^--", "--" + dest + ".", key)', 'C07.c'),
+        ('store_true actions not moved', '_actions.py', '            if isinstance(action, ActionYesNo):\n                action._add_dest_prefix(prefix)', '            if isinstance(action, argparse._StoreTrueAction):\n                continue\n            if isinstance(action, ActionYesNo):\n                action._add_dest_prefix(prefix)', 'C07.c'),
+        ('yes/no actions not collected', '_actions.py', '                action.option_strings = [add_prefix(key) for key in action.option_strings]\n            actions.append(action)', '                action.option_strings = [add_prefix(key) for key in action.option_strings]\n                actions.append(action)', 'C07.c'),
+        ('groups only extended with description', '_actions.py', '        parser._action_groups.extend([base_action_group] + extra_action_groups)', '        if description is not None:\n            parser._action_groups.extend([base_action_group] + extra_action_groups)', 'C07.c'),
+        ('group dest raw', '_actions.py', '                group.dest = dest + "." + group.dest', '                group.dest = prefix + "." + group.dest', 'C07.c'),
+        ('no prefix for --no_ option', '_actions.py', '"^--" + self._no_prefix, "--" + self._no_prefix + prefix + ".", self.option_strings[-1]', '"^--" + self._no_prefix, "--" + prefix + ".", self.option_strings[-1]', 'C07.c'),
+        ('dataclass tested after type hints', '_core.py', '            if is_dataclass_like(kwargs["type"]):\n                nested_key = args[0].lstrip("-")\n                self.add_class_arguments(kwargs.pop("type"), nested_key, **kwargs)\n                return _find_action(parser, nested_key)\n            if ActionTypeHint.is_supported_typehint(kwargs["type"]):', '            if ActionTypeHint.is_supported_typehint(kwargs["type"]) and not is_dataclass_like(kwargs["type"]):\n                pass\n            if is_dataclass_like(kwargs["type"]):\n                nested_key = args[0].lstrip("-")\n                self.add_class_arguments(kwargs.pop("type"), nested_key)\n                return _find_action(parser, nested_key)\n            if ActionTypeHint.is_supported_typehint(kwargs["type"]):', 'C07.a'),
+        ('dataclass key loses dots', '_core.py', 'nested_key = args[0].lstrip("-")', 'nested_key = args[0].strip("-").replace(".", "_")', 'C07.a'),
+        ('dataclass arm falls through', '_core.py', '                self.add_class_arguments(kwargs.pop("type"), nested_key, **kwargs)\n                return _find_action(parser, nested_key)', '                self.add_class_arguments(kwargs["type"], nested_key, **kwargs)', 'C07.a'),
+        ('class parameter key without separator', '_signatures.py', 'dest = (nested_key + "." if nested_key else "") + name', 'dest = (nested_key + "_" if nested_key else "") + name', 'C07.b'),
+        ('class parameter option single dash', '_signatures.py', 'args = [dest if is_required and as_positional else "--" + dest]', 'args = [dest if is_required and as_positional else "-" + dest]', 'C07.b'),
+        ('loader under group name only with docs', '_signatures.py', '            if config_load and nested_key is not None:', '            if config_load and nested_key is not None and doc_group:', 'C07.d'),
+        ('inner parser without whole-group loader', '_actions.py', '        parser.add_argument(args[0], action=_ActionConfigLoad)\n', '', 'C07.d'),
+        ('filter differs for dict', '_actions.py', '    return {k: a for k, a in actions.items() if not isinstance(a, default)}', '    return {k: a for k, a in actions.items() if not isinstance(a, default[:1])}', 'C07.e'),
+    ],
     "C08": [
         ("validate works on the caller's object", "_core.py", "        cfg = ccfg = cfg.clone()\n        if isinstance(branch, str):", "        ccfg = cfg\n        if isinstance(branch, str):", "C08.a"),
         ("parse_object without copy", "_core.py", "cfg_apply = self._apply_actions(recreate_branches(cfg_obj), prev_cfg=cfg)", "cfg_apply = self._apply_actions(cfg_obj, prev_cfg=cfg)", "C08.a"),
